@@ -69,10 +69,10 @@ func (f *Fed) NewGateway(cfg GatewayConfig) (*pebbles.Gateway, error) {
 
 // Response is a decoded gateway response (single mode).
 type Response struct {
-	Status int
-	Raw    []byte
-	Data   interface{}   `json:"data"`
-	Errors []interface{} `json:"errors"`
+	Status  int
+	Raw     []byte
+	Data    interface{}   `json:"data"`
+	Errors  []interface{} `json:"errors"`
 	HasData bool
 }
 
